@@ -17,7 +17,8 @@ ASSUMPTIONS = ['athlon_score itself is checked against the exact formula by C01;
 RULE = RULE + '; unknown pairs also through the forward function at ages None / 20 / 50, and every kind of call as the first one after import'
 
 UNKNOWN = [('M', 'XYZ'), ('X', '100'), ('F', '110H'), ('M', '100H'), ('', ''), ('m', 'hj '), ('M', 'NA'), ('?', '100'),
-           ('M', '100-Y'), ('M', 'M-100'), ('U-20', '100'), ('F', 'PEN-I'), ('M-', '100'), ('M', '-100'), ('F', '600'), ('M', '%s')]
+           ('M', '100-Y'), ('M', 'M-100'), ('U-20', '100'), ('F', 'PEN-I'), ('M-', '100'), ('M', '-100'), ('F', '600'), ('M', '%s'),
+           (None, '100'), ('M', None), ('F', 150), (5, '100')]
 TIMED_WORSE = +1
 FIELD_WORSE = -1
 
